@@ -70,7 +70,7 @@ opkinds! {
     VitNext = "vit_next",             // [vit_slot, back]
     BoxArrMacro = "box_arr_macro",    // [which]
     // internals feature
-    BuilderRun = "builder_run",       // [len_idx, p, kind(0 ArrayBuilder,1 Intrusive)]
+    BuilderRun = "builder_run",       // [len_idx, p, kind(0 ArrayBuilder,1 Intrusive via iter_position; 2, 3 the same via extend)]
     ConsumerRun = "consumer_run",     // [slot, p]
     // caller side
     DropObj = "drop",                 // [kind(0 arr,1 it,2 bx,3 vec,4 nest,5 vit), slot]
@@ -152,15 +152,14 @@ impl Prop {
     }
 }
 
-/// Which oracles are active in a run. I1–I3 (double drop, garbage, observed-after-drop)
-/// are always on; everything else is switched on by the property being checked so that
-/// a check never reports what its property does not state.
+/// Which oracles are active in a run. I1–I3 (double drop, garbage, observed-after-drop) and
+/// "the library panicked on its own" are always on — they are memory-safety violations under every
+/// property — everything else is switched on by the property being checked so that a check does
+/// not report what its property does not state.
 #[derive(Copy, Clone, Debug)]
 pub struct Checks {
     /// I4: every live element is reachable from the pool after each operation (no leak)
     pub conserve: bool,
-    /// after a destructor panic fired in an operation, unreachable live elements are forgiven
-    pub leak_ok_after_drop_fault: bool,
     /// queue model of the by-value iterator is compared call by call
     pub c06: bool,
     /// collect oracle
@@ -179,7 +178,6 @@ impl Checks {
     pub fn for_prop(p: Prop) -> Checks {
         let mut c = Checks {
             conserve: false,
-            leak_ok_after_drop_fault: false,
             c06: false,
             c07: false,
             c08: false,
@@ -189,9 +187,8 @@ impl Checks {
         };
         match p {
             Prop::C03 | Prop::C04 => c.conserve = true,
-            Prop::C05 => {
-                c.leak_ok_after_drop_fault = true;
-            }
+            // C05 allows leaks after a destructor panic: only I1-I3 are judged
+            Prop::C05 => {}
             Prop::C06 => c.c06 = true,
             Prop::C07 => {
                 c.c07 = true;
